@@ -12,14 +12,16 @@ SPEC = {
         "scan-scoped per-thread caches (hash, math) are dropped lazily, on the first access during a scan with a new id; the model drops them when the id is renewed: equivalent because the generated fact tl_scan_scoped includes that every access is preceded by the check",
         "results are a function of the visible state at the end of the prologue and of the probe input (no other hidden state: thread-locals outside lib/src/modules, process-wide statics other than the heartbeat counter)",
     ],
-    "trusted_base": ["Gen/ScanState.v: field lists, creation-time values, reset() body, scan_impl / blocks::Scanner::{scan,finish} / From<Scanner> bodies, module thread-locals and whether main clears them, regenerated from lib/src/scanner/*.rs, lib/src/wasm/mod.rs, lib/src/modules/**",
+    "trusted_base": ["Gen/ScanState.v: field lists, creation-time values, reset() body, the branch table of PatternMatches::clear() (every clear() in reset()/prologues is either a std container or translated branch by branch), scan_impl / blocks::Scanner::{scan,finish} / From<Scanner> bodies, module thread-locals and whether main clears them, regenerated from lib/src/scanner/*.rs, lib/src/wasm/mod.rs, lib/src/modules/**",
                      "hooks lib/src/verif_state.rs (digest, prologue capture, poll countdown), cfg(yara_x_verif)"],
 }
 
 RULE = ("histories over {scan, scan_with_options (good / failing cuckoo metadata = module error), set_global, set_timeout, max_matches_per_pattern, "
         "fast_scan, match_context_size, set_module_output_raw, into_blocks, blocks scan/finish, deadline expiry at the k-th poll (hook), scans by other "
         "scanners (3 rule sets) on the same thread}, length <= 6 (quick) / <= 12 (thorough), followed by a probe scan (contiguous, or 1-3 blocks + finish); "
-        "3 rule sets (49 rules observing patterns of every kind, filesize, uintN, hash/math/pe/test_proto2/test_proto3/cuckoo, globals, private/global rules), "
+        "10 buffers, one of them heavy (30 KB, ~15000 matches per `ab` pattern: the total match-list capacity crosses the 10000 threshold of "
+        "PatternMatches::clear, with 1-3 matches for other patterns), followed by small scans whose `#`, `@`, `!` and reported matches are compared; "
+        "3 rule sets (54 rules observing patterns of every kind, filesize, uintN, hash/math/pe/test_proto2/test_proto3/cuckoo, globals, private/global rules), "
         "9 buffers; used scanner vs fresh scanner on a fresh thread with the persistent options re-applied; a differing probe is delta-debugged per cause "
         "class. Non-trivial/distinct: histories of length >= 2, distinct by (rule set, history, probe).")
 
